@@ -4,7 +4,7 @@ stable passes recorded in /root/.vp/BASELINE.json. Exit 0 iff all 76 pass."""
 import json, os, subprocess, sys
 env = dict(os.environ, GOFLAGS="-mod=mod", GOPROXY="off", GOSUMDB="off", GOTOOLCHAIN="local")
 p = subprocess.run(["go", "test", "-json", "-vet=off", "-count=1", "-timeout", "25m", "./..."],
-                   cwd="/repo", env=env, capture_output=True, text=True)
+                   cwd=(sys.argv[1] if len(sys.argv) > 1 else "/repo"), env=env, capture_output=True, text=True)
 res = {}
 for line in p.stdout.splitlines():
     try:
